@@ -270,3 +270,77 @@ def register_run(reg):
         return [r]
     reg.ext_calls["sys.exit"] = sys_exit
     reg.add(RunApplication)
+
+
+class HandleSignals(FnSpec):
+    """C15: the signal handler service task: reports started() only after the receiver for SIGTERM/SIGINT is installed; on the first
+    signal it cancels the startup scope and sets the shutdown event (both, in that atomic segment) and stops listening."""
+    qual = "_runner.handle_signals"
+    properties = ("C15",)
+    param_types = {"startup_scope": LIB("CancelScope"), "event": LIB("AnyioEvent"), "task_status": LIB("TaskStatus")}
+    modifies = "rely"
+    suspends = True
+    may_raise = True
+    check_guarantee = False
+
+    def requires(self, F):
+        return []
+
+    def on_loop_body(self, eng, st, k, it):
+        st.ghost["iter_trace_start"] = len(st.trace)
+
+    def _loop0(self, L):
+        out = [("alloc-monotone", L.cur.alloc >= L.entry.alloc)]
+        return out
+
+    def _clauses(self, F, normal):
+        tr = F.new_st.trace
+        started = [i for i, e in enumerate(tr) if e[0] == "lib" and "started" in str(e[1])]
+        recv = [i for i, e in enumerate(tr) if e[0] == "lib" and e[1] == "open_signal_receiver"]
+        cancels = [i for i, e in enumerate(tr) if e[0] == "cs_cancel"]
+        sets = [i for i, e in enumerate(tr) if e[0] == "ev_set"]
+        out = [("receiver-installed-before-started-is-reported", z3.BoolVal(len(recv) == 1 and len(started) <= 1 and (not started or recv[0] < started[0])))]
+        if normal:
+            out.append(("started-was-reported", z3.BoolVal(len(started) == 1)))
+        if cancels or sets or (normal and "iter_trace_start" in F.new_st.ghost):
+            # (a signal was received: the loop body ran)
+            ok = len(cancels) == 1 and len(sets) == 1
+            between = tr[min(cancels + sets): max(cancels + sets) + 1] if ok else []
+            out.append(("first-signal:cancels-the-startup-scope-and-sets-the-shutdown-event-atomically",
+                        z3.And(z3.BoolVal(ok and not any(e[0] in ("suspend", "opaque", "opaque-raise") for e in between)),
+                               *([tr[cancels[0]][1].t == F.t("startup_scope"), tr[sets[0]][1].t == F.t("event")] if ok else []))))
+        return out
+
+    def local_ensures(self, F):
+        tr = F.new_st.trace
+        out = self._clauses(F, True)
+        return out
+
+    def local_raises(self, F):
+        return self._clauses(F, False)
+
+    def __init__(self):
+        self.loops = {0: self._loop0}
+
+
+def register_signals(reg):
+    reg.lib_classes |= {"SignalReceiverCM", "SignalReceiver"}
+    from .lib_anyio import new_lib
+
+    def open_receiver(eng, st, pos, kw, node):
+        st.uses.add("A-SIGRECV")
+        v = new_lib(eng, st, "SignalReceiverCM")
+        st.trace.append(("lib", "open_signal_receiver", pos))
+        return [Res(st, v)]
+    reg.ext_calls["anyio.open_signal_receiver"] = open_receiver
+
+    def rc_enter(eng, st, cm, is_async, item):
+        return [Res(st, new_lib(eng, st, "SignalReceiver"))]
+
+    def rc_exit(eng, o, cm, is_async, item):
+        return [o]
+    reg.lib_cms["SignalReceiverCM"] = (rc_enter, rc_exit)
+    reg.ext_calls.setdefault("signal.strsignal", lambda eng, st, pos, kw, node: [Res(st, SV(fresh("strsignal"), ANY))])
+    reg.assumptions_text["A-SIGRECV"] = ("anyio.open_signal_receiver(*signals) installs the handlers when the with-block is entered and yields an "
+                                         "async iterator of received signal numbers; leaving the block restores the previous handlers")
+    reg.add(HandleSignals)
